@@ -26,11 +26,18 @@ pub struct GenGeom {
     /// fill padding entries past the last cluster with non-zero values
     pub pad_garbage: bool,
     pub label: bool,
+    /// FAT32 with mirroring ON: value of the (then meaningless) active-copy nibble of the extended flags
+    #[serde(default)]
+    pub stray_active: u8,
+    /// FAT16/32 table entry 1: bit 0 = clean-shutdown bit cleared (volume was not unmounted properly by whoever used
+    /// it last), bit 1 = no-I/O-error bit cleared; the boot-sector status byte stays as configured
+    #[serde(default)]
+    pub fat1: u8,
 }
 
 impl Default for GenGeom {
     fn default() -> Self {
-        GenGeom { rsvd: 1, mirror_off: None, root_cluster: 2, high_nibbles: false, fsinfo: 1, bkboot: 6, eoc: 7, media: 0xF8, pad_garbage: false, label: false }
+        GenGeom { rsvd: 1, mirror_off: None, root_cluster: 2, high_nibbles: false, fsinfo: 1, bkboot: 6, eoc: 7, media: 0xF8, pad_garbage: false, label: false, stray_active: 0, fat1: 0 }
     }
 }
 
@@ -122,7 +129,7 @@ pub fn mkfs(p: &MkfsParams) -> Result<Store, String> {
         put32(&mut b, 36, fatsz as u32);
         let ext = match p.gg.mirror_off {
             Some(k) => 0x80 | (k as u16 & 0x0F),
-            None => 0,
+            None => p.gg.stray_active as u16 & 0x0F,
         };
         put16(&mut b, 40, ext);
         put16(&mut b, 42, 0);
@@ -177,7 +184,13 @@ pub fn mkfs(p: &MkfsParams) -> Result<Store, String> {
     };
     for c in 0..nfats {
         set_fat(&mut st, &g, c, 0, ones | p.gg.media as u32);
-        set_fat(&mut st, &g, c, 1, g.eoc_min() + 7);
+        let mut e1 = g.eoc_min() + 7;
+        if width == 16 {
+            e1 &= !(((p.gg.fat1 as u32 & 1) << 15) | ((p.gg.fat1 as u32 & 2) << 13));
+        } else if width == 32 {
+            e1 &= !(((p.gg.fat1 as u32 & 1) << 27) | ((p.gg.fat1 as u32 & 2) << 25));
+        }
+        set_fat(&mut st, &g, c, 1, e1);
     }
     if p.gg.pad_garbage {
         let cap = g.fat_capacity();
